@@ -2,9 +2,10 @@
     Only statements; every proof is [exact] of a lemma in Proofs/. The predicates below this
     layer (Go == on points, OrderedCCW, CrossingSign, ContainsPoint, the bounding rectangles) are
     parameters; the laws of them that a theorem uses are its visible premises. *)
-From Coq Require Import List Bool.
+From Coq Require Import List Bool ZArith.
 From Geo Require Import Model.Wedge Model.Relations Model.Nest Model.RelWalk.
 From Geo Require Import Proofs.C07_Wedge Proofs.C07_Walk Proofs.C07_Relations Proofs.C07_Polygon Proofs.C07_Nest.
+From Geo Require Import Model.RangeIter Proofs.C07_RangeIter.
 From Geo Require Proofs.C02_Float Proofs.Link_C02_C03 Model.Contain Proofs.Link_C07.
 Import ListNotations.
 
@@ -232,6 +233,26 @@ Print Assumptions real_loop_disjoint_only_if_no_common_point.
 Print Assumptions real_single_loop_polygon_eq_loop.
 Print Assumptions real_contains_point_is_brute_force.
 Print Assumptions real_invert_is_contain_invert.
+
+(** the index merge: rangeIterator.seekTo / seekBeyond land where their contracts say -------------
+    over abstract cell ranges [rmin c <= c <= rmax c], an index of disjoint cells in increasing
+    order, and a target cell nested with or disjoint from every index cell *)
+Theorem rangeIterator_seekTo_contract : forall (rmin rmax : BinNums.Z -> BinNums.Z),
+  (forall c, (rmin c <= c <= rmax c)%Z) ->
+  forall ids tmin tid tmax, index_ok rmin rmax ids -> (tmin <= tid <= tmax)%Z ->
+  (forall i, i < length ids -> laminar rmin rmax tmin tmax (RangeIter.at_pos ids i)) ->
+  first_with (fun c => (tmin <= rmax c)%Z) ids (seek_to rmin rmax ids tmin tid tmax).
+Proof. exact seek_to_contract. Qed.
+Print Assumptions rangeIterator_seekTo_contract.
+
+Theorem rangeIterator_seekBeyond_contract : forall (rmin rmax : BinNums.Z -> BinNums.Z),
+  (forall c, (rmin c <= c <= rmax c)%Z) ->
+  forall ids tmin tmax, index_ok rmin rmax ids -> (tmin <= tmax)%Z ->
+  (forall i, i < length ids -> (tmax < RangeIter.at_pos ids i)%Z -> (RangeIter.at_pos ids i < tmax + 2)%Z ->
+             (rmin (RangeIter.at_pos ids i) <= tmax)%Z) ->
+  first_with (fun c => (tmax < rmin c)%Z) ids (seek_beyond rmin ids tmax).
+Proof. exact seek_beyond_contract. Qed.
+Print Assumptions rangeIterator_seekBeyond_contract.
 
 (** nesting discovery (PolygonFromLoops) -------------------------------------------------------
     [nesting_result ids out]: out lists every loop exactly once, with depth = number of the other
